@@ -41,6 +41,11 @@ T1: Dict[str, dict] = {
         'total_first_arg': ['latin1', 'latin-1', 'iso-8859-1'],
         'why': 'bytes.decode without errors= on external data (latin1 is total)',
     },
+    'astor.to_source': {
+        'raises': ['ValueError'],
+        'why': 'an integer literal with more digits than sys.int_max_str_digits (4300, CPython >= 3.11; a hex literal has no such limit when it is '
+               'parsed) makes repr(int) raise inside the code generator',
+    },
     '.read_string': {
         'raises': ['configparser.Error'],
         'receiver': ['ConfigParser', 'RawConfigParser'],
